@@ -1,11 +1,15 @@
 package props
 
 import (
+	"bytes"
 	"fmt"
 	"math/rand/v2"
 	"regexp"
+	"seehuhn.de/go/sfnt/post"
 	"sort"
 	"strings"
+	"verif/harness/internal/ref/sfntwalk"
+	"verif/harness/internal/ref/tabread"
 
 	"golang.org/x/text/language"
 	"seehuhn.de/go/postscript/type1/names"
@@ -726,6 +730,134 @@ func runC20(c *mon.Ctx) {
 			k.Sample(desc + fmt.Sprintf(" -> %q", list))
 		}
 	})
+
+	// TrueType fonts as sfnt.Read returns them (the name list comes from the
+	// post table: version 2, version 1 - the standard Macintosh list, whatever
+	// the number of glyphs - or version 3 without names): the postconditions
+	// hold, the names can be installed, and the standard names that other
+	// fonts are given afterwards are still the standard names
+	c.Stratum("names-from-files", c.N(360, 15000), func(k *mon.Case) {
+		r := k.Rng
+		o := fontgen.Opts{Kind: "glyf", MinGlyphs: 1, MaxGlyphs: 24, Plain: true, NoComposite: true, CMap: []string{"none", "4", "12", "4", "mac"}[r.IntN(5)]}
+		switch k.Index / 3 % 8 {
+		case 0:
+			o.MinGlyphs, o.MaxGlyphs = 258, 258
+		case 1:
+			o.MinGlyphs, o.MaxGlyphs = 259, 300
+		}
+		f, info := fontgen.Font(r, o)
+		n := f.NumGlyphs()
+		_, pattern := c20names(r, f, n, false)
+		if f.CreationTime.IsZero() && f.ModificationTime.IsZero() {
+			f.ModificationTime = f.ModificationTime.AddDate(2001, 0, 0)
+		}
+		buf := &bytes.Buffer{}
+		var werr error
+		if k.Guard("Write", func() { _, werr = f.Write(buf) }) {
+			return
+		}
+		if werr != nil {
+			k.Skip("font cannot be written: " + werr.Error())
+			return
+		}
+		data := buf.Bytes()
+		version := []string{"2", "1", "3"}[k.Index%3]
+		if version != "2" {
+			wf, _ := sfntwalk.Walk(data)
+			if wf == nil || wf.Get("post") == nil || len(wf.Get("post").Data) < 32 {
+				k.Fail("mismatch", "harness:no-post-table", "the written font has no post table")
+				return
+			}
+			tabs := map[string][]byte{}
+			for _, t := range wf.Tables {
+				if t.Data != nil {
+					tabs[t.Tag] = t.Data
+				}
+			}
+			pt := append([]byte(nil), wf.Get("post").Data[:32]...)
+			copy(pt[0:4], map[string][]byte{"1": {0, 1, 0, 0}, "3": {0, 3, 0, 0}}[version])
+			tabs["post"] = pt
+			data = c02sfnt(wf.Scaler, tabs)
+		}
+		k.Input(data)
+		var g *sfnt.Font
+		var rerr error
+		if k.Guard("sfnt.Read", func() { g, rerr = sfnt.Read(bytes.NewReader(data)) }) {
+			return
+		}
+		if rerr != nil {
+			k.Fail("mismatch", "names-from-files:read-error", "sfnt.Read rejects the font (post version %s): %v", version, rerr)
+			return
+		}
+		desc := fmt.Sprintf("glyphs=%d cmap=%s pattern=%s post-version=%s", n, info.CMap, pattern, version)
+		var list, installed []string
+		if k.Guard("MakeGlyphNames+EnsureGlyphNames", func() {
+			list = g.MakeGlyphNames()
+			list = append([]string(nil), list...)
+			g.EnsureGlyphNames()
+			for i := 0; i < n; i++ {
+				installed = append(installed, g.GlyphName(glyph.ID(i)))
+			}
+		}) {
+			return
+		}
+		k.Eval()
+		seen := map[string]bool{}
+		for i, nm := range list {
+			switch {
+			case nm == "":
+				k.Fail("mismatch", "empty-name", "glyph %d has an empty name (%s)", i, desc)
+				return
+			case seen[nm]:
+				k.Fail("mismatch", "duplicate-name", "name %q used twice (%s)", nm, desc)
+				return
+			case i == 0 && nm != ".notdef":
+				k.Fail("mismatch", "notdef", "glyph 0 is named %q (%s)", nm, desc)
+				return
+			}
+			seen[nm] = true
+		}
+		if len(list) != n {
+			k.Fail("mismatch", "length", "MakeGlyphNames returned %d names for %d glyphs (%s)", len(list), n, desc)
+			return
+		}
+		if fmt.Sprint(installed) != fmt.Sprint(list) {
+			k.Fail("mismatch", "ensure-differs", "after EnsureGlyphNames, GlyphName gives %q, MakeGlyphNames gave %q (%s)", installed, list, desc)
+			return
+		}
+		// what the next fonts are given
+		v1 := make([]byte, 32)
+		v1[1] = 1
+		v2 := &bw{}
+		v2.u32(0x00020000, 0, 0, 0, 0, 0, 0, 0).u16(258)
+		for i := 0; i < 258; i++ {
+			v2.u16(i)
+		}
+		for name, tab := range map[string][]byte{"version 1": v1, "version 2": v2.b} {
+			var pi *post.Info
+			var perr error
+			if k.Guard("post.Read", func() { pi, perr = post.Read(bytes.NewReader(tab)) }) {
+				return
+			}
+			k.Eval()
+			if perr != nil || len(pi.Names) != 258 {
+				k.Fail("mismatch", "harness:standard-post-table", "post.Read of a %s table with the 258 standard names: %v", name, perr)
+				return
+			}
+			for i, nm := range pi.Names {
+				if nm != tabread.MacGlyphNames[i] {
+					k.Fail("mismatch", "names-from-files:standard-names-changed", "after MakeGlyphNames/EnsureGlyphNames on a font read from a file (%s), a %s post table read next names standard glyph %d %q instead of %q", desc, name, i, nm, tabread.MacGlyphNames[i])
+					return
+				}
+			}
+		}
+		k.Class("names-from-files:post-version-" + version)
+		if n >= 258 {
+			k.Class("names-from-files:>=258-glyphs")
+		}
+		k.Distinct("nff", k.Index)
+	})
+	c.Require("names-from-files:post-version-1", "names-from-files:post-version-2", "names-from-files:post-version-3", "names-from-files:>=258-glyphs")
 
 	// PostScript names
 	delims := []string{"(", ")", "<", ">", "[", "]", "{", "}", "/", "%", " ", "\t", "\n", "\x00", "\x7f"}
